@@ -660,6 +660,225 @@ func (c *c25) partRMP() {
 	}
 }
 
+// ---- part edge: inputs whose documented behaviour is unclear (empty but non-nil
+// range bounds, BatchRemove with a batch limit <= 0). What the call does is
+// recorded as an outcome; only the isolation statement is judged: an iteration
+// delivers nothing but entries of its own view, a removal changes nothing outside
+// the widest reading of its range and reports the number of keys it removed.
+
+func (c *c25) partEdgeIter(pi int) {
+	r := c.r
+	p := c25prefixes[pi]
+	m := c25universe()
+	st := c.db.reset(m)
+	pst := NewPrefixStorage(st, []byte(p))
+
+	type bound struct {
+		name string
+		b    []byte
+	}
+
+	bounds := []bound{{"nil", nil}, {"empty", []byte{}}, {"a", []byte("a")}, {"b", []byte("b")}}
+
+	for _, bs := range bounds {
+		for _, bl := range bounds {
+			if bs.name != "empty" && bl.name != "empty" {
+				continue
+			}
+
+			for _, asc := range []bool{true, false} {
+				id := fmt.Sprintf("edge-iter/p=%x/start=%s/limit=%s/asc=%v", p, bs.name, bl.name, asc)
+				if !r.Want(id) {
+					continue
+				}
+
+				r.Eval()
+				r.Trace()
+				r.Nontrivial(id)
+
+				var got []c25kv
+				var err error
+
+				if pn, msg := vlib.Catch(func() {
+					err = pst.Iter(&leveldbutil.Range{Start: bs.b, Limit: bl.b}, func(k, v []byte) (bool, error) {
+						got = append(got, c25kv{string(k), string(v)})
+
+						return true, nil
+					}, asc)
+				}); pn {
+					c.vio(id, map[string]any{"kind": "panic", "op": "Iter", "range": "empty-bound"}, "Iter panicked: "+msg, map[string]any{"id": id})
+
+					continue
+				}
+
+				foreign := ""
+
+				for _, kv := range got {
+					if v, ok := m[p+kv.k]; !ok || v != kv.v {
+						foreign = fmt.Sprintf("(%x,%q)", kv.k, kv.v)
+					}
+				}
+
+				// the two readings of an empty bound: no bound / the empty key
+				var sN, lN, sE, lE *string
+
+				if bs.b != nil {
+					x := string(bs.b)
+					sE = &x
+
+					if bs.name != "empty" {
+						sN = &x
+					}
+				}
+
+				if bl.b != nil {
+					x := string(bl.b)
+					lE = &x
+
+					if bl.name != "empty" {
+						lN = &x
+					}
+				}
+
+				switch {
+				case foreign != "":
+					c.vio(id, map[string]any{"kind": "iter-differs", "range": "empty-bound", "prefix": c25prefixClass(p), "view": "open"},
+						fmt.Sprintf("Iter(prefix %x, start %s, limit %s, asc %v) delivered %s, which is no entry of the view; saw %s", p, bs.name, bl.name, asc, foreign, c25kvs(got)), map[string]any{"id": id})
+				case err != nil:
+					r.Outcome("edge-iter:start=" + c25edgeName(bs.name) + ":limit=" + c25edgeName(bl.name) + ":error")
+				case c25sameKVs(got, m.view(p, sN, lN, asc)):
+					r.Outcome("edge-iter:start=" + c25edgeName(bs.name) + ":limit=" + c25edgeName(bl.name) + ":empty-bound-read-as-no-bound")
+				case c25sameKVs(got, m.view(p, sE, lE, asc)):
+					r.Outcome("edge-iter:start=" + c25edgeName(bs.name) + ":limit=" + c25edgeName(bl.name) + ":empty-bound-read-as-empty-key")
+				default:
+					r.Outcome("edge-iter:start=" + c25edgeName(bs.name) + ":limit=" + c25edgeName(bl.name) + ":other-subset-of-the-view")
+				}
+			}
+		}
+	}
+
+	if sc := c25scan(st); sc.canon() != m.canon() {
+		c.vio(fmt.Sprintf("edge-iter/p=%x/readonly", p), map[string]any{"kind": "raw-differs", "op": "reads"}, "reads changed the storage:"+c25diff(sc, m), nil)
+	}
+}
+
+func c25edgeName(s string) string {
+	if s == "nil" || s == "empty" {
+		return s
+	}
+
+	return "key"
+}
+
+func (c *c25) partEdgeBRM() {
+	r := c.r
+	base := c25brmKeyset()
+
+	type bound struct {
+		name string
+		b    []byte
+	}
+
+	bounds := []bound{{"nil", nil}, {"empty", []byte{}}, {"ab", []byte("ab")}, {"b", []byte("b")}, {"ff", []byte("\xff")}}
+
+	for _, bs := range bounds {
+		for _, bl := range bounds {
+			for _, n := range []int{-1, 0, 1, 333} {
+				if bs.name != "empty" && bl.name != "empty" && n > 0 {
+					continue // covered by part brm
+				}
+
+				id := fmt.Sprintf("edge-brm/start=%s/limit=%s/batch=%d", bs.name, bl.name, n)
+				if !r.Want(id) {
+					continue
+				}
+
+				r.Eval()
+				r.Trace()
+				r.Nontrivial(id)
+
+				m := base.clone()
+				st := c.db.reset(m)
+
+				var removed int
+				var err error
+
+				if pn, msg := vlib.Catch(func() {
+					removed, err = BatchRemove(st, &leveldbutil.Range{Start: bs.b, Limit: bl.b}, n)
+				}); pn {
+					c.vio(id, map[string]any{"kind": "panic", "op": "BatchRemove", "range": "edge"}, "BatchRemove panicked: "+msg, map[string]any{"id": id})
+
+					continue
+				}
+
+				// widest reading: an empty bound is no bound
+				inside := func(k string) bool {
+					return (len(bs.b) == 0 || k >= string(bs.b)) && (len(bl.b) == 0 || k < string(bl.b))
+				}
+				// narrowest reading: an empty limit is the empty key (nothing is below it)
+				insideNarrow := func(k string) bool { return inside(k) && bl.name != "empty" }
+
+				sc := c25scan(st)
+				gone, goneOutside, inN, inNarrowN := 0, "", 0, 0
+
+				for _, k := range m.keys() {
+					if inside(k) {
+						inN++
+					}
+
+					if insideNarrow(k) {
+						inNarrowN++
+					}
+
+					if v, ok := sc[k]; !ok || v != m[k] {
+						gone++
+
+						if !inside(k) {
+							goneOutside += fmt.Sprintf(" %x", k)
+						}
+					}
+				}
+
+				for k := range sc {
+					if _, ok := m[k]; !ok {
+						goneOutside += fmt.Sprintf(" +%x", k)
+					}
+				}
+
+				rp := map[string]any{"id": id}
+				limitClass := map[bool]string{true: "positive", false: "zero-or-negative"}[n > 0]
+
+				switch {
+				case goneOutside != "":
+					c.vio(id, map[string]any{"kind": "raw-differs", "op": "BatchRemove", "range": "edge", "where": "outside", "batch_limit": limitClass},
+						fmt.Sprintf("BatchRemove([%s,%s), batch limit %d) changed keys outside the range:%s", bs.name, bl.name, n, goneOutside), rp)
+				case err == nil && removed != gone:
+					c.vio(id, map[string]any{"kind": "count-differs", "op": "BatchRemove", "range": "edge", "batch_limit": limitClass},
+						fmt.Sprintf("BatchRemove([%s,%s), batch limit %d) returned %d, %d keys are gone", bs.name, bl.name, n, removed, gone), rp)
+				default:
+					what := "removed-part-of-the-range"
+
+					switch {
+					case err != nil:
+						what = "error"
+					case gone == 0 && inN == 0:
+						what = "empty-range"
+					case gone == 0:
+						what = "removed-nothing"
+					case gone == inN:
+						what = "removed-the-widest-range"
+					case gone == inNarrowN:
+						what = "removed-the-narrow-range"
+					}
+
+					lim := map[bool]string{true: "positive", false: fmt.Sprint(n)}[n > 0]
+					r.Outcome(fmt.Sprintf("edge-brm:empty-start=%v:empty-limit=%v:batch=%s:%s", bs.name == "empty", bl.name == "empty", lim, what))
+				}
+			}
+		}
+	}
+}
+
 // ---- part bfs: operation histories over two views of one storage
 
 type c25event struct {
@@ -1053,9 +1272,10 @@ func TestVerifC25(t *testing.T) {
 	r.Rule("iter: every prefix of {a,ab,b,a\\xff,\\xff,\\xff\\xff} over the full keyset (every 1..2-byte suffix over {a,b,\\x00,\\xff} under every prefix + 9 outside keys) x every (start,limit) in ({nil} + 20 suffixes)^2 x asc/desc, plus Get/Exists of every suffix; " +
 		"brm: BatchRemove over every (start,limit) of the boundary set and BytesPrefix(p) for every prefix x batch limits {1,2,3,333}; rmp: RemoveByPrefix / Remove for every prefix; " +
 		"bfs: BFS to the stated depth over 28 events (put/del x3 keys, batch, batch with empty key, Remove, Close, RemoveByPrefix, BatchRemove x2 limits, BatchRemove sub-range; per view) on two views of one storage, state = storage content + closed flags (the views hold no other state, so equal states have equal futures). " +
-		"non-trivial = ranged iteration, a removal that removes something, a batch that fills exactly at the range end, a state with a closed view")
+		"edge: Iter of every prefix with an empty non-nil start and/or limit (x nil/a/b for the other bound, asc/desc), BatchRemove over {nil,empty,ab,b,\\xff}^2 bounds with an empty bound or a batch limit in {-1,0}; " +
+		"non-trivial = ranged iteration, a removal that removes something, a batch that fills exactly at the range end, a state with a closed view, an edge input")
 	r.Assume("goleveldb's own iterator/batch are trusted; the storage instance is reused between cases and reset to the exact seed content through goleveldb directly (fresh PrefixStorage views per history)")
-	r.Assume("empty (non-nil, zero length) range bounds, BatchRemove limits <= 0 and concurrent use are not enumerated")
+	r.Assume("empty (non-nil, zero length) range bounds and BatchRemove batch limits <= 0 have no documented meaning: what the code does with them is recorded as an outcome (edge-iter / edge-brm), only 'nothing outside the view or the widest reading of the range is delivered or changed' is judged; concurrent use is explored by the second unit")
 	r.Set("bfs_depth", depth)
 	r.Set("bfs_pairs", len(pairs))
 	r.Set("bfs_events", len(c25events()))
@@ -1095,6 +1315,14 @@ func TestVerifC25(t *testing.T) {
 			work = append(work, func() { b.search(ei, depth) })
 		}
 	}
+
+	// inputs with unclear documented behaviour (appended last: the earlier items keep their indexes)
+	for pi := range c25prefixes {
+		pi := pi
+		work = append(work, func() { c.partEdgeIter(pi) })
+	}
+
+	work = append(work, func() { c.partEdgeBRM() })
 
 	r.Set("work_items", len(work))
 
